@@ -102,6 +102,11 @@ CHECKS = {
             "All histories up to the depth bound are explored from two initial states under several hash-length / storage-dir configurations; the storage model predicts listing and references of every transition and five invariants (name = sha256, persisted only with reference, -new pruned, removal only by approved trim of unreferenced data, written reference resolves uniquely) hold in every reached state.",
             "Depth 2 (quick, main configuration) to 4 (thorough); payloads without prefix collisions; lookup clause probed directly on DiscStorage.read.",
             "DESIGN.md 5/C13, A.3"),
+    "C15": ("fault_enumeration",
+            "exhaustive single-fault enumeration: every call made at seven library/stdlib boundaries during pytest_sessionfinish (counted by a recording run) x every fault kind of that boundary, each a real session followed by a plain session; old-or-complete-new and external-resolution oracle",
+            "Every intercepted call on the path from 'changes computed' to 'files written' is faulted once with every applicable fault kind (exception, process exit before/after/mid-call, non-zero exit, unparsable / truncated / non-UTF-8 formatter output) in a multi-file change set with externals; thorough adds 1- and 2-file change sets.",
+            "Boundaries patched in the harness child (no repo hook); new content compared by syntax tree; one known finding (non-atomic in-place write) with a residual test.",
+            "DESIGN.md 5/C15"),
 }
 
 NOT_APPLICABLE = {
